@@ -53,7 +53,7 @@ def _run_real(sp, d, real_solve=True, solve_timeout_s=150):
     old = None
     if real_solve:
         old = signal.signal(signal.SIGALRM, _alarm)
-        signal.setitimer(signal.ITIMER_REAL, solve_timeout_s)
+        signal.setitimer(signal.ITIMER_REAL, solve_timeout_s, 0.5)     # repeats: an exception raised inside a __del__ is swallowed
     saved = mod.Solver
     mod.Solver = Rec
     try:
@@ -194,8 +194,11 @@ def run(tier, only=None):
         for key, group in sorted(by_shape.items(), key=lambda kv: str(kv[0])):
             if len(group) < 2:
                 continue
-            for _ in range(2 if tier == "quick" else 6):
-                a, b = rr.sample(group, 2)
+            n = len(group)
+            npairs = min(n, 8 if tier == "quick" else 24)
+            for i in range(npairs):
+                b = group[(i * max(1, n // npairs)) % n]
+                a = group[(i * max(1, n // npairs) + 1 + (i * 5) % (n - 1)) % n]      # spread over the group: clue-free, clued, with holes...
                 if S.content_key(a) == S.content_key(b):
                     continue
                 e = {k: v for k, v in b.items() if k not in ("prior",)}
@@ -203,7 +206,8 @@ def run(tier, only=None):
                 e["tag"] = "%s/after:%s" % (b.get("tag", "?"), a.get("tag", "?"))
                 e["name"] = sp.name_of(e)
                 hist.append(e)
-        hist = hist[: (12 if tier == "quick" else 60)]
+        rr.shuffle(hist)
+        hist = hist[: (32 if tier == "quick" else 120)]
         ds += hist
         per[sp.module] = len(ds)
         descs += ds
